@@ -329,15 +329,16 @@ def _admin_payload_opaque(lean_raw, orig_payload_hex):
 
 def check_malformed(chk, cases):
     R = G.real()
+    nb = len(cases)
+    cases = [c for c in cases if not G.bomb_screen(c[1])]
+    if nb != len(cases):
+        chk.count('D:not run: uint >= 2^17 in a byte-string slot (BstrField.m2i would allocate that many octets)', nb - len(cases))
     outs = chk.driver([{'op': 'bp.decode', 'hex': c[1].hex()} for c in cases])
     for case, o in zip(cases, outs):
         kind, data = case[0], case[1]
         orig_payload = case[2] if len(case) > 2 else None
         replay = {'stream': 'D', 'kind': kind, 'hex': data.hex()}
         chk.case(replay)
-        if G.bomb_screen(data):
-            chk.count('D:not run: uint >= 2^17 in a byte-string slot (BstrField.m2i would allocate that many octets)')
-            continue
         try:
             back = R['Bundle'](data)
             real_ok = True
@@ -432,10 +433,12 @@ def directed_specs(rng):
 
 
 def d19_probe(chk):
-    ''' D19 (DESIGN §8): a dtn EID whose demux contains ?query / #fragment loses its tail through
-    urlsplit. Reported as a violation of the round trip when the implementation exhibits it. '''
+    ''' D19 (fixed in the repository): a dtn EID whose demux contains ?query / #fragment must round-trip.
+    Kept as a regression monitor with its signature. Also compares the code's remaining EID
+    rewriting (non-RFC forms) with the Lean normalisation. '''
     R = G.real()
-    for uri, ssp in [('dtn://node/svc?x=1', '//node/svc?x=1'), ('dtn://node/a#frag', '//node/a#frag')]:
+    for uri, ssp in [('dtn://node/svc?x=1', '//node/svc?x=1'), ('dtn://node/a#frag', '//node/a#frag'),
+                     ('dtn://node/?', '//node/?'), ('dtn://node/#', '//node/#'), ('dtn://n/a?b#c?d', '//n/a?b#c?d')]:
         spec = {'primary': {'version': 7, 'flags': 0, 'crc_type': 0, 'dest': ('dtn', ssp), 'src': ('none',),
                             'rpt': ('none',), 'time': 1, 'seq': 1, 'lifetime': 1000, 'frag_off': 0,
                             'total_len': 0, 'crc': None},
@@ -445,20 +448,33 @@ def d19_probe(chk):
         back = R['Bundle'](data)
         got = back.primary.getfieldval('destination')
         want = G.spec_rfc_bytes(spec)
-        o = chk.driver([{'op': 'bp.wf', 'bundle': G.spec_json(spec)},
-                        {'op': 'bp.normeid', 'eid': G.eid_json(('dtn', ssp))}])
+        o = chk.driver([{'op': 'bp.wf', 'bundle': G.spec_json(spec)}])
         chk.case({'d19': uri})
         chk.count('d19:probe')
-        model_norm = G.eid_from_json(o[1]['eid']) if 'eid' in o[1] else None
-        if o[0].get('wf'):
-            chk.corr_break('model calls an EID with ?/# well-formed', {'uri': uri})
-        if model_norm != got:
-            chk.corr_break('D19: model normalisation %r differs from the real round trip %r' % (model_norm, got), {'uri': uri})
+        if not o[0].get('wf'):
+            chk.corr_break('model calls an RFC 9171 EID with ?/# not well-formed', {'uri': uri})
         if data != want or got != uri:
             chk.violation('C02:eid-query-fragment-dropped',
-                          'EID %r is encoded as %r: urlsplit drops the ?query/#fragment part that RFC 9171 '
-                          'dtn-ssp (demux = *VCHAR) allows' % (uri, got),
+                          'EID %r is encoded as %r: the ?query/#fragment part that RFC 9171 dtn-ssp '
+                          '(demux = *VCHAR) allows is lost' % (uri, got),
                           {'uri': uri, 'real_hex': data.hex(), 'rfc_hex': want.hex(), 'decoded': got})
+    # what the code still rewrites (not RFC 9171 EIDs): model vs real EidField.i2m(EidField.m2i(.))
+    from bp.encoding.fields import EidField
+    fld = EidField('probe')
+    ssps = ['//host', '//host?q', '//host#f', '///x', '//', '//h/a\tb?c\td', 'none', 'no\tne', '~m?x', 'a/b#c',
+            '//h/p?', '/x//y', '//h//p', '?', '#', '']
+    outs = chk.driver([{'op': 'bp.normeid', 'eid': G.eid_json(('dtn', s))} for s in ssps])
+    for s, o in zip(ssps, outs):
+        chk.case({'normeid': s})
+        chk.count('d19:normalisation probe')
+        try:
+            item = fld.i2m(None, fld.m2i(None, [1, s]))
+            real = 'dtn:none' if item[1] == 0 else 'dtn:' + item[1]
+        except Exception as e:  # noqa
+            real = 'raised %s' % type(e).__name__
+        model = G.eid_from_json(o['eid']) if 'eid' in o else 'none'
+        if model != real:
+            chk.corr_break('EID normalisation of %r: real %r, model %r' % (s, real, model), {'ssp': s})
 
 
 def check_agent_tx(chk, specs):
